@@ -13,6 +13,9 @@
 //!   malformed    off-grid creations and off-grid modify prices (C12)
 //!   edge         as malformed, on a window of grid prices at the very bottom (0, tick, ..) or the very
 //!                top (.., floor(MAX/tick)*tick) of the price range (C12: "arbitrary prices")
+//!   unusual      legal but unusual requests: zero volumes (orders, market orders, modifications to volume 0), the
+//!                clock moved backwards, price windows at the very ends of the range (the sentinel prices 0 and
+//!                MAX as resting prices), trading switches; same-time bursts
 //!   invalid      unknown ids, zero volumes, clock moved back: only to compare faults with panics
 
 use crate::bookdrive::Live;
@@ -95,6 +98,7 @@ impl Gen {
             3 => Some(cur.saturating_add(self.vol()).max(1)),
             _ => None,
         };
+        let v = if self.profile == "unusual" && self.chance(0.2) { Some(0) } else { v };
         (p, v)
     }
 
@@ -114,6 +118,7 @@ impl Gen {
                 "redundant" => (22, 6, 8, 8, 8, 10, 3, 1, 0, 28, 6),
                 "reload" => (35, 8, 5, 5, 10, 18, 3, 1, 12, 3, 0),
                 "mixed" => (30, 8, 6, 6, 10, 20, 6, 1, 5, 6, 3),
+                "unusual" => (30, 8, 6, 6, 10, 22, 5, 1, 0, 6, 8),
                 "malformed" | "edge" => (40, 5, 10, 5, 8, 25, 2, 1, 2, 4, 0),
                 "ties" => (42, 8, 5, 5, 10, 22, 2, 1, 2, 3, 0),
                 "py" => (45, 10, 0, 0, 12, 24, 4, 0, 4, 0, 3),
@@ -132,8 +137,13 @@ impl Gen {
                 false
             }
         };
+        let tie_p = if prof == "unusual" { 0.3 } else { tie_p };
         let advance = |g: &mut Gen, ops: &mut Vec<Op>| {
-            if !g.chance(tie_p) {
+            if g.profile == "unusual" && g.chance(0.15) {
+                // a legal move of the clock backwards
+                g.t = g.t.saturating_sub(g.rng.gen_range(1..6));
+                ops.push(Op::Time(g.t));
+            } else if !g.chance(tie_p) {
                 g.t = g.t.saturating_add(g.rng.gen_range(1..4));
                 ops.push(Op::Time(g.t));
             }
@@ -224,7 +234,8 @@ impl Gen {
                 }
             }
         } else if pick(w_time) {
-            self.t = self.t.saturating_add(self.rng.gen_range(0..5));
+            if prof == "unusual" && self.chance(0.5) { self.t = self.t.saturating_sub(self.rng.gen_range(0..8)); }
+            else { self.t = self.t.saturating_add(self.rng.gen_range(0..5)); }
             ops.push(Op::Time(self.t));
         }
         ops
